@@ -70,6 +70,32 @@ What is transliterated, and from where
   body is commented out — the new `filename` is not queued, `update_path` stays what the endpoint was built
   with. Site `mrt` (repaired: files newly listed in `filename` are queued, the endpoint resolves names in the
   new `update_path`; files already listed are not read again).
+## `BmpIn` — bmp-tcp-in, every setting (`src/units/bmp_tcp_in/{unit,router_handler,io}.rs`, `http/*`)
+* `Cfg` = all five fields of `BmpTcpIn`: `listen`, `http_api_path`, `router_id_template`, `filter_name`,
+  `tracing_mode` (0 Off, 1 IfRequested, 2 On). `St.cfg` = what the runner holds: `self.listen`, the three
+  `ArcSwap`s shared with every `RouterHandler` and with the router list page, and `self.http_api_path`.
+* `reload c` = `process_until`, arm `Reconfiguring` (`unit.rs:518-550`): `rebind = listen differs`; **then**
+  `self.listen`, `filter_name.store`, `router_id_template.store`, `tracing_mode.store` — all four before the early
+  return that triggers the re-bind; `http_api_path: _http_api_path` is bound and dropped: the list page stays
+  registered where `BmpTcpIn::run` put it and `setup_router_specific_api_endpoint` keeps using
+  `self.http_api_path`. Site `bmppath` (repaired: list page and every router page move to the new path).
+  Sessions (`router_states`) are not touched; their handlers get `Reconfiguring` through their gate clone and
+  do nothing with it ("We don't have any settings to reconfigure", `router_handler.rs:235-239`).
+* `conn slot`: accepted only on the bound address; `find_or_register_bmp_router` (a fresh id per address: the
+  engine uses one address per connection; id 1 is the unit's own), `router_connected` formats the router id
+  with the template in force (`Router.tmpl`), the router page is registered under `self.http_api_path`
+  (`Router.page`), and the handler starts reading: `BmpStream::next` creates `bmp_read(rx, **tracing_mode.load())`
+  — **the mode is loaded when the read is started, not when the message arrives** (`io.rs:152`): `Router.readMode`.
+* `init k t` = router `k` sends an Initiation message whose version byte carries trace id `t` in its high half
+  (`io.rs:65-73`). Read with `readMode`: Off leaves the byte alone (`t > 0` ⇒ routecore rejects the version,
+  `ErrorKind::Other`, not fatal: the message is dropped), otherwise the id is taken and the byte cleaned. Then
+  `read_from_router` (`router_handler.rs:248-270`) with the mode **in force**: On and no id ⇒
+  `next_tracing_id()`; traced iff id > 0 or On. `status_reporter.message_received` counts it under the router's
+  id so far (`seen`), `check_update_router_id` re-formats the id with the template in force. The next read is
+  started with the mode in force. Site `bmptrace` (repaired: the mode is loaded when the header has arrived).
+* `close k`: the handler's task removes the router (tables, page, the metrics of its current id).
+`filter_name` is stored and read nowhere (the call is in a commented-out block; the roto function is looked up
+once, by the fixed name `bmp-in`): it is adopted in the only sense there is.
 Theorems: `Props/ReconfUnits.lean`. Import-free so that the driver links.
 -/
 namespace Rotonda.ReconfUnits
@@ -84,10 +110,12 @@ structure Variant where
   bgplisten : Site := .asWritten
   fileout : Site := .asWritten
   mrt : Site := .asWritten
+  bmppath : Site := .asWritten
+  bmptrace : Site := .asWritten
   deriving DecidableEq, Repr
 
 def asWritten : Variant := {}
-def repaired : Variant := ⟨.repaired, .repaired, .repaired, .repaired, .repaired⟩
+def repaired : Variant := ⟨.repaired, .repaired, .repaired, .repaired, .repaired, .repaired, .repaired⟩
 
 /-! ## bgp-tcp-in -/
 namespace Bgp
@@ -505,5 +533,136 @@ def isReload : Ev → Bool
   | _ => false
 
 end Mrt
+
+/-! ## bmp-tcp-in (all settings) -/
+namespace BmpIn
+
+structure Cfg where
+  listen : Nat
+  path : Nat
+  tmpl : Nat
+  filter : Nat
+  mode : Nat
+  deriving DecidableEq, Repr
+
+structure Router where
+  conn : Nat
+  id : Nat
+  page : Nat       -- the path its `RouterInfoApi` was registered under
+  tmpl : Nat       -- the template its current router id was formatted with
+  readMode : Nat   -- the tracing mode its in-flight `bmp_read` was started with
+  deriving DecidableEq, Repr
+
+structure St where
+  cfg : Cfg
+  bound : Nat
+  routers : List Router := []
+  next : Nat := 2
+  nconn : Nat := 0
+  tnext : Nat := 0
+  seen : List (Nat × Nat) := []   -- (router, template) labels under which messages were counted
+  deriving DecidableEq, Repr
+
+def init (c : Cfg) : St := { cfg := c, bound := c.listen }
+
+inductive Ev where
+  | conn (slot : Nat)
+  | init (k t : Nat)
+  | close (k : Nat)
+  | reload (c : Cfg)
+  deriving DecidableEq, Repr
+
+inductive Out where
+  | refused
+  | ok (id : Nat)
+  | nc
+  | msg (processed : Bool) (trace : Option Nat)
+  | closed
+  | reloaded
+  deriving DecidableEq, Repr
+
+/-- `bmp_read`: the trace id taken from the version byte, or `none` if the message is rejected. -/
+def readPhase (readMode t : Nat) : Option Nat :=
+  if readMode = 0 then (if t = 0 then some 0 else none) else some t
+
+/-- `read_from_router` after a message was read with trace id `tid`, under the mode in force. -/
+def handlePhase (mode tid tnext : Nat) : Out × Nat :=
+  let tid' := if tid = 0 ∧ mode = 2 then tnext else tid
+  let tnext' := if tid = 0 ∧ mode = 2 then (tnext + 1) % 256 else tnext
+  (.msg true (if tid' > 0 ∨ mode = 2 then some tid' else none), tnext')
+
+def conn (s : St) (slot : Nat) : St × Out :=
+  let s1 := { s with nconn := s.nconn + 1 }
+  if slot ≠ s.bound then (s1, .refused)
+  else
+    ({ s1 with next := s.next + 1,
+               routers := s.routers ++ [⟨s.nconn, s.next, s.cfg.path, s.cfg.tmpl, s.cfg.mode⟩] }, .ok s.next)
+
+def insertLabel (l : List (Nat × Nat)) (x : Nat × Nat) : List (Nat × Nat) := if l.contains x then l else l ++ [x]
+
+/-- the mode the message of router `r` is read with -/
+def readModeOf (v : Variant) (r : Router) (mode : Nat) : Nat :=
+  match v.bmptrace with
+  | .asWritten => r.readMode
+  | .repaired => mode
+
+def initMsg (v : Variant) (s : St) (k t : Nat) : St × Out :=
+  match s.routers.find? (·.conn == k) with
+  | none => (s, .nc)
+  | some r =>
+    match readPhase (readModeOf v r s.cfg.mode) t with
+    | none =>
+      ({ s with routers := s.routers.map (fun x => if x.conn == k then { x with readMode := s.cfg.mode } else x) },
+        .msg false none)
+    | some tid =>
+      let h := handlePhase s.cfg.mode tid s.tnext
+      ({ s with tnext := h.2, seen := insertLabel s.seen (r.id, r.tmpl),
+                routers := s.routers.map (fun x =>
+                  if x.conn == k then { x with readMode := s.cfg.mode, tmpl := s.cfg.tmpl } else x) }, h.1)
+
+def close (s : St) (k : Nat) : St × Out :=
+  match s.routers.find? (·.conn == k) with
+  | none => (s, .nc)
+  | some r => ({ s with routers := s.routers.filter (·.conn != k), seen := s.seen.filter (· != (r.id, r.tmpl)) }, .closed)
+
+def reload (v : Variant) (s : St) (c : Cfg) : St × Out :=
+  match v.bmppath with
+  | .asWritten => ({ s with cfg := { c with path := s.cfg.path }, bound := c.listen }, .reloaded)
+  | .repaired =>
+    ({ s with cfg := c, bound := c.listen, routers := s.routers.map (fun r => { r with page := c.path }) }, .reloaded)
+
+def step (v : Variant) (s : St) : Ev → St × Out
+  | .conn slot => conn s slot
+  | .init k t => initMsg v s k t
+  | .close k => close s k
+  | .reload c => reload v s c
+
+def run (v : Variant) (s : St) : List Ev → St
+  | [] => s
+  | e :: es => run v (step v s e).1 es
+
+def runOut (v : Variant) (s : St) : List Ev → List (Out × St)
+  | [] => []
+  | e :: es => let r := step v s e; (r.2, r.1) :: runOut v r.1 es
+
+/-- The configuration that takes the settings selected by the five flags from `b`, the others from `a`:
+    one reload that changes exactly that subset of settings. -/
+def mix (a b : Cfg) (l p t f m : Bool) : Cfg :=
+  ⟨if l then b.listen else a.listen, if p then b.path else a.path, if t then b.tmpl else a.tmpl,
+   if f then b.filter else a.filter, if m then b.mode else a.mode⟩
+
+/-- the configuration of the last reload (reference) -/
+def lastCfg (c : Cfg) : List Ev → Cfg
+  | [] => c
+  | .reload c' :: es => lastCfg c' es
+  | _ :: es => lastCfg c es
+
+/-- Reference: what an Initiation message with trace id `t` gives under tracing mode `mode`. -/
+def refMsg (mode t tnext : Nat) : Out × Nat :=
+  match readPhase mode t with
+  | none => (.msg false none, tnext)
+  | some tid => handlePhase mode tid tnext
+
+end BmpIn
 
 end Rotonda.ReconfUnits
